@@ -615,3 +615,75 @@ def run_c15_coap(case, R):
 
 C15_COAP_LAYERS = [Layer("coap-list-pairings", run_c15_coap, enumerate=lambda tier: ({"n": n, "idlen": l} for n in range(1, 9) for l in (4, 20, 36)), exhaustive=True,
                          space="list_pairings over CoAP with 1..8 controllers x 3 identifier lengths (pairing TLVs of 45 to 700 bytes inside the HAP-Param Value)", min_nontrivial=5)]
+
+
+# ---------------------------------------------------------------- C17: the database read at first contact (values attributed to the right characteristic)
+def run_c17_coap_initial(case, R):
+    """The accessory's service has n characteristics (readable or not, in generated order) holding distinct values, some answering the
+    read with an error status: the model returned by list_accessories_and_characteristics holds, for every readable one, the value
+    the accessory holds for that very instance id."""
+    n = case["n"]
+    R.nt(n > 8 or any(case.get("bad", [])))
+    R.cls("coap:initial-read", f"readable>{8 if n > 8 else 0}")
+
+    async def main(loop):
+        w = CoapWorld(loop, k=case.get("k", 0))
+        try:
+            chars = {}
+            for j in range(n):
+                iid = 20 + j
+                readable = not (case.get("writeonly", [])[j:j + 1] or [False])[0]
+                chars[iid] = (0xFE00 + j, 0x06, "<H", (0x10 if readable else 0) | 0x20)
+            w.acc.chars = dict(chars)
+            for j, iid in enumerate(chars):
+                w.acc.values[iid] = struct.pack("<H", 1000 + j * 7 + case.get("sel", 0) % 5)
+                if (case.get("bad", [])[j:j + 1] or [0])[0]:
+                    w.acc.read_status[iid] = case["bad"][j]
+            p = w.pairing
+            what = f"CoAP first contact, {n} characteristics in one service"
+            try:
+                res = await p.list_accessories_and_characteristics()
+            except Exception as e:  # noqa: BLE001
+                R.fail("C13.read-raises", f"{what}: {type(e).__name__}: {e}", exc=type(e).__name__)
+                return
+            got = {c["iid"]: c.get("value") for a in res for s_ in a["services"] for c in s_["characteristics"]}
+            for j, iid in enumerate(chars):
+                if not chars[iid][3] & 0x10 or w.acc.read_status.get(iid):
+                    if got.get(iid) not in (None, 0):
+                        R.fail("C17.pdu-misattributed", f"{what}: instance id {iid} was not read successfully, yet the model holds {got.get(iid)!r}", transport="coap-initial")
+                        return
+                    continue
+                exp = struct.unpack("<H", w.acc.values[iid])[0]
+                if got.get(iid) != exp:
+                    R.fail("C17.pdu-misattributed", f"{what}: instance id {iid} (position {j}) holds {exp}, the model says {got.get(iid)!r}", transport="coap-initial")
+                    return
+            await p.shutdown()
+        finally:
+            w.restore()
+    vtime.run(main)
+
+
+def enum_c17_coap_initial(tier):
+    for n in range(1, 25):
+        yield {"n": n}
+        yield {"n": n, "writeonly": [j % 3 == 1 for j in range(n)], "sel": n}
+        yield {"n": n, "bad": [(6 if j % 4 == 2 else 0) for j in range(n)], "sel": n}
+
+
+@st.composite
+def c17_coap_initial_cases(draw):
+    n = draw(st.integers(1, 40))
+    wo = draw(st.lists(st.sampled_from([False, False, False, True]), min_size=n, max_size=n))
+    if all(wo):
+        # at least one readable characteristic per service: what an accessory answers to the empty batch the tree would send otherwise is not
+        # specified, so nothing can be demanded there
+        wo[draw(st.integers(0, n - 1))] = False
+    return {"n": n, "writeonly": wo,
+            "bad": draw(st.lists(st.sampled_from([0, 0, 0, 0, 2, 6]), min_size=n, max_size=n)), "sel": draw(st.integers(0, 100)), "k": draw(st.integers(0, 5))}
+
+
+C17_COAP_INITIAL_LAYERS = [
+    Layer("coap-initial-read", run_c17_coap_initial, enumerate=enum_c17_coap_initial, exhaustive=True,
+          space="services of 1..24 characteristics x {all readable, every third write-only, every fourth answering with status 6}", min_nontrivial=40),
+    Layer("coap-initial-read-gen", run_c17_coap_initial, strategy=c17_coap_initial_cases, n={"quick": 300, "thorough": 6000}),
+]
